@@ -116,7 +116,14 @@ DOCS12['di'] = "{True: {'b': u1, 0: 5}, 0: u2, 2: {'a': u2, 'b': 3, 2: 9}, -2: u
 def cases(ctx):
     L = 2 if ctx.quick else 3
     out = []
-    for cid, expr, extra, docid in API_PATHS:
+    api_paths = list(API_PATHS)
+    spec_paths = list(SPEC_PATHS)
+    if not ctx.quick:
+        floaty = ("prim.float", "from_str.float", "map.key_float")
+        api_paths += [(f"{cid}@{d}", expr, extra, d) for cid, expr, extra, docid in API_PATHS for d in ("dm", "dl", "di", "ds")
+                      if d != docid and cid not in floaty]
+        spec_paths += [(f"{cid}@{d}", specs, extra, d) for cid, specs, extra, docid in SPEC_PATHS for d in ("dm", "dl", "di", "ds") if d != docid]
+    for cid, expr, extra, docid in api_paths:
         params = extra + [("u1", U), ("u2", "int"), ("u3", "int")]
         names = ", ".join(p[0] for p in params)
         body = f"""
@@ -125,7 +132,7 @@ doc = {DOCS12[docid]}
 {(ASSERT if 'from_str' not in cid else ASSERT[:ASSERT.index('if ok and concrete_run()')] + 'return ok').replace('FROMSPEC', '').replace('PURE', 'is_json_compatible' if 'from_str' in cid else 'is_json_pure')}
 """
         out.append(mk_case(f"c12.api.{cid}", params, body, pre=[f"BU({L}, {names})"], stubs=["sym_repr"]))
-    for cid, specs, extra, docid in SPEC_PATHS:
+    for cid, specs, extra, docid in spec_paths:
         params = extra + [("u1", U), ("u2", "int"), ("u3", "int")]
         names = ", ".join(p[0] for p in params)
         body = f"""
